@@ -255,6 +255,7 @@ class Execution:
         self.op_gen_steps = {}
         self.op_gsteps = {}
         self.out_digest = 0
+        self.single_fired = {}
         self.keep_outcomes = False
         self.full_outcomes = []
         # an op issued while a forward reference is unresolved is compared with
@@ -405,6 +406,7 @@ class Execution:
         results = sched.run(programs)
         self.stats["conc"] += 1
         self.stats["switches"] += sched.switches
+        self.single_fired[idx] = getattr(schedule, "fired", None)
         self.stats["preempt_in_compile"] += sched.probes.get("preempt_in_compile", 0)
         self.stats["concurrent_compile"] += sched.probes.get("concurrent_compile", 0)
         self.switch_logs[idx] = sched.switch_log
